@@ -202,27 +202,60 @@ structure Ev where
 
 instance : Inhabited Ev := ⟨⟨0, 0, fun _ => none, ""⟩⟩
 
-partial def wgSearch (evs : Array Ev) (remaining : List Nat) (st : String)
-    (seen : Std.HashSet (List Nat × String)) : Bool × Std.HashSet (List Nat × String) :=
-  if remaining.isEmpty then (true, seen)
-  else if seen.contains (remaining, st) then (false, seen)
-  else
-    let seen := seen.insert (remaining, st)
-    -- minimal calls: invoked before every remaining call has returned
-    let minRet := remaining.foldl (fun m i => min m (evs[i]!).ret) (evs[remaining.head!]!).ret
-    let cands := remaining.filter fun i => (evs[i]!).inv < minRet
-    let rec attempt (cs : List Nat) (seen : Std.HashSet (List Nat × String)) : Bool × Std.HashSet (List Nat × String) :=
-      match cs with
-      | [] => (false, seen)
-      | i :: cs' =>
-        match (evs[i]!).apply st with
-        | none => attempt cs' seen
-        | some st' =>
-          let (ok, seen') := wgSearch evs (remaining.filter (· ≠ i)) st' seen
-          if ok then (true, seen') else attempt cs' seen'
-    attempt cands seen
+/-! The search is TOTAL (fuel = number of remaining calls) and its memo holds only configurations that were
+explored to the end without success; `C18/LinProps.lean` proves `linearizable evs init = true ↔ Linearizable evs init`
+(soundness and completeness), so both verdicts of the drivers of C18 and C04 are theorems about the recorded
+history, not search results. -/
+namespace Lin
+
+/-- `order` (indices of calls) is a legal sequential execution from `st` that respects real time: no later call
+of the order had returned before an earlier one was invoked. -/
+def Valid (inv ret : Nat → Nat) (app : Nat → String → Option String) : List Nat → String → Prop
+  | [], _ => True
+  | i :: rest, st => (∀ j ∈ rest, ¬ ret j < inv i) ∧ ∃ st', app i st = some st' ∧ Valid inv ret app rest st'
+
+/-- the calls `rem` can be linearized from state `st` -/
+def Lin (inv ret : Nat → Nat) (app : Nat → String → Option String) (rem : List Nat) (st : String) : Prop :=
+  ∃ order : List Nat, order.Perm rem ∧ Valid inv ret app order st
+
+abbrev Memo := Std.HashSet (List Nat × String)
+
+/-- `i` may be linearized first among `rem`: no other remaining call returned before `i` was invoked -/
+def minimal (inv ret : Nat → Nat) (rem : List Nat) (i : Nat) : Bool :=
+  (rem.erase i).all fun j => !(decide (ret j < inv i))
+
+def attempt (inv ret : Nat → Nat) (app : Nat → String → Option String)
+    (rec : List Nat → String → Memo → Bool × Memo) (rem : List Nat) (st : String) :
+    List Nat → Memo → Bool × Memo
+  | [], m => (false, m)
+  | i :: cs, m =>
+    if minimal inv ret rem i then
+      match app i st with
+      | none => attempt inv ret app rec rem st cs m
+      | some st' =>
+        let r := rec (rem.erase i) st' m
+        if r.1 then (true, r.2) else attempt inv ret app rec rem st cs r.2
+    else attempt inv ret app rec rem st cs m
+
+def search (inv ret : Nat → Nat) (app : Nat → String → Option String) :
+    Nat → List Nat → String → Memo → Bool × Memo
+  | 0, rem, _, m => (rem.isEmpty, m)
+  | f + 1, rem, st, m =>
+    if rem.isEmpty then (true, m)
+    else if m.contains (rem, st) then (false, m)
+    else
+      let r := attempt inv ret app (search inv ret app f) rem st rem m
+      if r.1 then r else (false, r.2.insert (rem, st))
+
+end Lin
 
 def linearizable (evs : Array Ev) (init : String) : Bool :=
-  (wgSearch evs (List.range evs.size) init {}).1
+  (Lin.search (fun i => (evs[i]!).inv) (fun i => (evs[i]!).ret) (fun i => (evs[i]!).apply)
+    evs.size (List.range evs.size) init {}).1
+
+/-- the specification the checker decides: some permutation of all recorded calls is a legal sequential
+execution from `init` and respects the real-time order of the recorded invocation / response numbers -/
+def Linearizable (evs : Array Ev) (init : String) : Prop :=
+  Lin.Lin (fun i => (evs[i]!).inv) (fun i => (evs[i]!).ret) (fun i => (evs[i]!).apply) (List.range evs.size) init
 
 end Specter.C18
